@@ -218,12 +218,14 @@ def check(case):
         nb = nd - 2
         p = stp.get("p", 0)
         loose = a["loose"]
+        jit_scale = a.get("jit", 0.0)
         opk = k
         fn_lib = None
         # ---------------- choose concrete parameters against the current shape; skip steps that do not apply
         if k in ("add", "sub", "mul", "matmul", "cat"):
             b = pool[stp["b"]]
             loose = loose or b["loose"]
+            jit_scale = jit_scale + b.get("jit", 0.0)
             if k == "add":
                 fn_lib, ref, mag = (lambda: a["lib"] + b["lib"]), ref_a + b["ref"], mag_a + b["mag"]
                 loose = loose or b["head"] in ROOTFORM
@@ -233,6 +235,9 @@ def check(case):
             elif k == "mul":
                 fn_lib, ref, mag = (lambda: a["lib"] * b["lib"]), ref_a * b["ref"], mag_a * b["mag"]
                 loose = True
+                # (A + e I) o (B + e I) - A o B = e (diag A + diag B) + e^2 on the diagonal: the Cholesky jitter e of each
+                # root decomposition is scaled by the OTHER operand's magnitude
+                jit_scale = (jit_scale + 1.0) * (1.0 + float(mag_a.max()) + float(b["mag"].max()))
             elif k == "matmul":
                 fn_lib, ref, mag = (lambda: a["lib"] @ b["lib"]), torch.matmul(ref_a, b["ref"]), torch.matmul(mag_a, b["mag"])
             else:
@@ -286,6 +291,13 @@ def check(case):
         elif k == "expand":
             extra = _pick(p, [(), (2,), (1,), (3, 1)])
             tgt = list(extra) + [(_pick(p // 7 + i, [2, 3]) if s_ == 1 else s_) for i, s_ in enumerate(ref_a.shape[:-2])] + list(ref_a.shape[-2:])
+            # the documented "-1 = keep this size" form, for existing dimensions only (bits of p choose the positions)
+            keep = (p // 13) % 8
+            for i in range(nb):
+                if (keep >> (i % 3)) & 1 and (p // 5) % 2:
+                    tgt[len(extra) + i] = -1
+            if (p // 3) % 4 == 0:
+                tgt[-2:] = [-1, -1]
             fn_lib, ref, mag = (lambda: a["lib"].expand(*tgt)), ref_a.expand(*tgt), mag_a.expand(*tgt)
         elif k == "repeat":
             extra = _pick(p, [(), (2,), (1, 2)])
@@ -403,14 +415,17 @@ def check(case):
             extra = 8.0 if any("Toeplitz" in l for l in labels) else 1.0
             bound = tol.exact_bound(S, dt, max(ref.shape[-2:]) if ref.dim() >= 2 else 1, a.get("depth", 1) + len(kinds) + 1, extra)
             if loose:
-                bound = bound + 16.0 * tol.JITTER_MAX[dt] * (1.0 + float(mag.max()))
+                # jitter carried over from earlier steps grows with the result (scalar factors, matmul, sums over batch)
+                if jit_scale and float(mag_a.max()) > 0:
+                    jit_scale = jit_scale * max(1.0, float(mag.max()) / float(mag_a.max()))
+                bound = bound + 16.0 * tol.JITTER_MAX[dt] * (1.0 + float(mag.max()) + jit_scale)
             ratio, i = tol.worst_excess(dense_res, ref, bound)
             if ratio > 1.0:
                 fail("value", "max |lib-ref|/bound = %.3g (lib=%r ref=%r flat %s) result type %s" % (ratio, dense_res.reshape(-1)[i].item(), ref.reshape(-1)[i].item(), i, rt))
         new_psd = a["psd"] and k in ("add_jitter", "add_low_rank", "cat_rows", "expand", "repeat", "squeeze", "unsqueeze", "permute", "transpose", "prod", "sum") and not (k == "sum" and stp.get("a") is not None and False)
         if k == "sum":
             new_psd = a["psd"] and torch.is_tensor(ref) and ref.dim() >= 2 and not torch.is_tensor(res)
-        pool.append({"lib": res, "ref": ref, "mag": mag, "head": rt, "psd": bool(new_psd), "loose": loose, "depth": a.get("depth", 1) + 1})
+        pool.append({"lib": res, "ref": ref, "mag": mag, "head": rt, "psd": bool(new_psd), "loose": loose, "jit": jit_scale, "depth": a.get("depth", 1) + 1})
         if len(kinds) >= 2 and rtypes[0] not in ("Sum", "Dense", "Tensor"):
             nontrivial = True
     labels += ["step:" + k for k in kinds] + ["rtype:" + t for t in rtypes] + ["dtype:" + dt, "nsteps:%d" % executed]
@@ -463,16 +478,37 @@ def _nonsquare0(case):
     return shp[-1] != shp[-2]
 
 
+def _any_batched(case):
+    for o in case["operands"]:
+        try:
+            shp = refmodel.shape(o["recipe"]) if o["kind"] == "op" else tuple(L.shape_of(o["t"]))
+        except Exception:
+            return True
+        if len(shp) > 2:
+            return True
+    return any(s.get("s", {}).get("kind") == "batched" for s in case["steps"])
+
+
 DIAGISH = {"Diag", "ConstantDiag", "Identity", "KroneckerDiag"}
+
+GETITEM_OPEN = {"Kernel", "Matmul", "BatchRepeat", "BlockDiag", "BlockInterleaved", "Cat", "TransposePermutation"}
 
 TRIGGERS = {
     "scalar_batched": lambda c: any(s.get("s", {}).get("kind") == "batched" and s["k"] in ("mul_scalar", "rmul_scalar", "div_scalar") for s in c["steps"][:1]),
     "interp_matmul_operator": lambda c: _first(c) == "matmul" and _heads(c)[0] == "Interpolated",
     "mul_with_identity": lambda c: _first(c) == "mul" and "Identity" in _heads(c),
     "repeat_step": lambda c: "repeat" in _kinds(c) and (_nonsquare0(c) or _first(c) in ("matmul", "cat")),
-    "squeeze_step": lambda c: "squeeze" in _kinds(c) and (_first(c) == "matmul" or bool({"Kernel", "Matmul"} & _all_classes(c))),
+    # squeeze() is __getitem__ with an int batch index: it inherits the open C03 __getitem__ defects of these classes
+    # (BatchRepeat also arises from an earlier repeat / expand step)
+    "squeeze_step": lambda c: "squeeze" in _kinds(c)
+    and (_first(c) == "matmul" or bool(GETITEM_OPEN & _all_classes(c)) or bool({"repeat", "expand"} & set(_kinds(c)[: _kinds(c).index("squeeze")]))),
     "sum_step": lambda c: "sum" in _kinds(c) and (bool({"Interpolated", "KroneckerDiag", "KroneckerAddedDiag"} & _all_classes(c)) or (_first(c) in ("add", "sub", "radd_tensor", "rsub_tensor") and bool(DIAGISH & set(_heads(c))))),
-    "expand_transpose_permutation": lambda c: bool({"expand", "repeat"} & set(_kinds(c))) and "TransposePermutation" in _all_classes(c),
+    # TransposePermutation cannot carry a batch shape: any program in which a batch dimension meets one
+    "expand_transpose_permutation": lambda c: "TransposePermutation" in _all_classes(c) and (bool({"expand", "repeat", "unsqueeze"} & set(_kinds(c))) or _any_batched(c)),
+    "cat_transpose_permutation": lambda c: "cat" in _kinds(c) and "TransposePermutation" in _all_classes(c),
+    "add_low_rank_then_root_use": lambda c: any(
+        k == "add_low_rank" and bool({"prod", "mul", "add_low_rank", "cat_rows", "add", "sub"} & set(_kinds(c)[i + 1 :])) for i, k in enumerate(_kinds(c))
+    ),
     "zero_add_diagonal": lambda c: bool({"add_diagonal", "add_jitter"} & set(_kinds(c))) and "Zero" in _all_classes(c),
 }
 
